@@ -3,9 +3,11 @@ with scripted rail actions, a prompt-recording fake LLM and deterministic embedd
 
 A *case* (JSON):
   {"ver": "1.0"|"2.x", "dialog": bool, "exc": bool, "in": [rail ids in configured order], "out": [rail ids],
-   "carry": "messages"|"state",
+   "carry": "messages"|"state"|"fresh" (messages, but no events cache: stateless deployment), "gen": "std"|"pt"|"ptp"|"ptfn"|"single" (1.0 generation mode), "front": bool,
+   "usaid": "something"|"plain"|"regex" (2.x without dialog rails: how the answering flow waits for the user),
    "turns": [{"user": str, "bot": str, "intent": "flow"|"free"|"act",
-              "vin":  [[id, verdict]..], "vout": [[id, verdict]..], "act_fault": bool, "retr_fault": bool}]}
+              "vin":  [[id, verdict]..], "vout": [[id, verdict]..], "act_fault": bool, "retr_fault": bool,
+              "exc_kind": one of EXC_KINDS (the exception value every scripted fault of the turn raises)}]}
   verdict = "a" (accept) | "r" (reject) | ["w", text] (rewrite) | "f" (the rail's action raises)
 
 An *observation*: per turn {"steps": [...], "reply": {"role", "content"|"exc"}, "raised": None|str}
@@ -84,12 +86,26 @@ models:
     engine: fakeemb
     model: fake
 enable_rails_exceptions: {exc}
+passthrough: {passthrough}
 rails:
   input:
     flows: [{inflows}]
   output:
     flows: [{outflows}]
+  dialog:
+    single_call:
+      enabled: {single}
 """
+
+# Colang 1.0 generation modes ("gen" of a case) through which a user message reaches an LLM prompt:
+#   std    - task prompts rendered from the event history (general / user intent / next steps / bot message)
+#   pt     - `passthrough: true`, request made with messages=[...] (chat mode): the request itself is the prompt
+#   ptp    - `passthrough: true`, request made with prompt="..." (completion mode, no history)
+#   ptfn   - `passthrough: true` and a `passthrough_fn` (as RunnableRails installs) instead of the LLM call
+#   single - `rails.dialog.single_call.enabled`: one generate_intent_steps_message call
+PT_MODES = ("pt", "ptp", "ptfn")
+FRONT_SYSTEM = {"role": "system", "content": "SYSTEM-FRONT keep answers short"}
+FRONT_CONTEXT = {"role": "context", "content": {"verif_front_marker": "ctx"}}
 
 YAML_V2 = """
 colang_version: "2.x"
@@ -191,6 +207,16 @@ flow {name}
 """
 
 
+# how the answering flow of the 2.x non-dialog configuration waits for the user ("usaid" of a case)
+PLAIN_TEXT = "plain question Uplainx"
+REGEX_WORD = "magicword"
+USAID_FORMS = {
+    "something": "user said something",
+    "plain": 'user said "%s"' % PLAIN_TEXT,
+    "regex": 'user said (regex("(?i).*%s.*"))' % REGEX_WORD,
+}
+
+
 def v2_colang(case):
     parts = ["import core", "import guardrails", "import llm", ""]
     if case["dialog"]:
@@ -214,10 +240,10 @@ flow main
   activate answering
 
 flow answering
-  user said something
+  %s
   $answer = ..."Answer the question of the user."
   bot say $answer
-""")
+""" % USAID_FORMS[case.get("usaid", "something")])
     sc = bool(case.get("sc"))
     if sc:
         parts.insert(3, "import nemoguardrails.library.self_check.input_check\nimport nemoguardrails.library.self_check.output_check")
@@ -233,6 +259,29 @@ flow answering
 
 
 # ------------------------------------------------------------------ scripted actions and LLM
+
+EXC_KINDS = ["msg", "empty", "multiline", "timeout", "assert", "notimpl", "keyerror"]
+
+
+def _raise_fault(where):
+    """Raise the turn's scripted exception VALUE (`exc_kind` of the turn): with a message, with an empty `str()`
+    (ValueError(), asyncio.TimeoutError(), a bare assert, NotImplementedError()), with a multi-line message.
+    BaseException subclasses (KeyboardInterrupt, CancelledError) are not faults of the action in the property's sense."""
+    kind = (_STATE["script"] or {}).get("exc_kind", "msg")
+    if kind == "empty":
+        raise ValueError()
+    if kind == "multiline":
+        raise RuntimeError(f"scripted fault in {where}\nsecond line of the message\n  third line")
+    if kind == "timeout":
+        raise asyncio.TimeoutError()
+    if kind == "assert":
+        assert False
+    if kind == "notimpl":
+        raise NotImplementedError()
+    if kind == "keyerror":
+        raise KeyError("missing key in " + where)
+    raise ScriptedFault(f"scripted fault in {where}")
+
 
 def _verdict(kind, i):
     t = _STATE["script"]
@@ -251,14 +300,23 @@ def _system_action(fn):
 
 
 def _make_check(kind, i):
-    async def check(context: dict = None):
+    """Rail check action. Even rail ids are async functions, odd ids plain (synchronous) functions - the dispatcher
+    supports both; the dialog action below is a class-based action."""
+    def body(context):
         var = "user_message" if kind == "in" else "bot_message"
         text = (context or {}).get(var)
-        _STATE["rec"].append(["rail", kind, i, text])
+        _STATE["rec"].append(["rail", kind, i, text if isinstance(text, (str, type(None))) else repr(text)])
         v = _verdict(kind, i)
         if v == "f":
-            raise ScriptedFault(f"scripted fault in {kind} rail {i}")
+            _raise_fault(f"{kind} rail {i}")
         return v != "r"
+
+    if i % 2 == 0:
+        async def check(context: dict = None):
+            return body(context)
+    else:
+        def check(context: dict = None):
+            return body(context)
 
     check.__name__ = f"rail_{kind}_{i}_check"
     return _system_action(check)
@@ -277,11 +335,14 @@ def _make_mask(kind, i):
     return _system_action(mask)
 
 
-async def dialog_act():
-    _STATE["rec"].append(["act", "dialog_act"])
-    if _STATE["script"].get("act_fault"):
-        raise ScriptedFault("scripted fault in dialog action")
-    return True
+class DialogAct:
+    """Class-based custom action of the dialog flow (instantiated lazily by the dispatcher, `run` is synchronous)."""
+
+    def run(self, **kwargs):
+        _STATE["rec"].append(["act", "dialog_act"])
+        if _STATE["script"].get("act_fault"):
+            _raise_fault("dialog action")
+        return True
 
 
 async def retrieve_relevant_chunks():
@@ -290,7 +351,7 @@ async def retrieve_relevant_chunks():
 
     _STATE["rec"].append(["act", "retrieve"])
     if _STATE["script"].get("retr_fault"):
-        raise ScriptedFault("scripted fault in retrieve_relevant_chunks")
+        _raise_fault("retrieve_relevant_chunks")
     return ActionResult(return_value="", context_updates={"relevant_chunks": ""})
 
 
@@ -318,7 +379,12 @@ def _make_llm():
             if task == "generate_next_steps":
                 return "  bot respond free"
             if task == "generate_bot_message":
+                if _STATE.get("gen") in PT_MODES:
+                    return t["bot"]  # passthrough: the completion is used as it is
                 return '  "' + t["bot"] + '"'
+            if task == "generate_intent_steps_message":
+                i = t.get("intent", "free")
+                return f'  ask {i}\nbot respond {i}\n  "' + t["bot"] + '"'
             if task == "general":
                 return t["bot"]
             if task == "generate_value_from_instruction":
@@ -343,7 +409,8 @@ def _q(s):
 
 
 def config_key(case):
-    return (case["ver"], bool(case["dialog"]), bool(case["exc"]), tuple(case["in"]), tuple(case["out"]), bool(case.get("sc")))
+    return (case["ver"], bool(case["dialog"]), bool(case["exc"]), tuple(case["in"]), tuple(case["out"]), bool(case.get("sc")), case.get("gen", "std") if case["ver"] == "1.0" else "std",
+            case.get("usaid", "something") if case["ver"] == "2.x" and not case["dialog"] else "-")
 
 
 def get_rails(case):
@@ -360,6 +427,8 @@ def get_rails(case):
         if case["ver"] == "1.0":
             yaml = YAML_V1.format(
                 exc="True" if case["exc"] else "False",
+                passthrough="True" if case.get("gen") in PT_MODES else "False",
+                single="True" if case.get("gen") == "single" else "False",
                 inflows=", ".join(f'"{f}"' for f in inflows),
                 outflows=", ".join(f'"{f}"' for f in outflows),
             ) + (YAML_SC if sc else "")
@@ -377,9 +446,18 @@ def get_rails(case):
                     rails.register_action(_make_mask(kind, i), f"rail_{kind}_{i}_mask")
                 else:
                     rails.register_action(_make_check(kind, i), f"Rail{kind.capitalize()}{i}CheckAction")
-        rails.register_action(dialog_act, "dialog_act" if case["ver"] == "1.0" else "DialogActAction")
+        rails.register_action(DialogAct, "dialog_act" if case["ver"] == "1.0" else "DialogActAction")
         if case["ver"] == "1.0":
             rails.register_action(retrieve_relevant_chunks, "retrieve_relevant_chunks")
+            if case.get("gen") == "ptfn":
+                replaced = "generate_bot_message" if case["dialog"] else "general"
+
+                async def passthrough_fn(context: dict, events: list):
+                    # stands in for the LLM call; like RunnableRails' function it reads the text from the context
+                    _STATE["rec"].append(["llm", replaced, str((context or {}).get("user_message"))])
+                    return _STATE["script"]["bot"], {"passthrough": True}
+
+                rails.llm_generation_actions.passthrough_fn = passthrough_fn
         tm = rails.runtime.llm_task_manager
         orig_render = tm.render_task_prompt
 
@@ -399,6 +477,10 @@ def get_rails(case):
 def _canon_reply(res):
     """-> {"role": "assistant"|"exception", "content": str, "exc": type name or None, "events": [event types]}"""
     msg = res
+    if isinstance(res, str):  # completion mode (`prompt=`): only the content is returned
+        msg = {"role": "assistant", "content": res}
+    elif isinstance(res, dict) and "role" not in res and str(res.get("type", "")).endswith("Exception"):
+        msg = {"role": "exception", "content": res}
     if hasattr(res, "response"):
         msg = res.response[0] if isinstance(res.response, list) else {"role": "assistant", "content": res.response}
     out = {"role": msg.get("role"), "content": msg.get("content"), "exc": None, "events": []}
@@ -419,22 +501,46 @@ async def _run(case):
         rails.events_history_cache.clear()
     obs = []
     messages = []
-    state = None if case.get("carry", "messages") == "messages" and case["ver"] == "1.0" else {}
+    state = None if case.get("carry", "messages") in ("messages", "fresh") and case["ver"] == "1.0" else {}
+    gen = case.get("gen", "std") if case["ver"] == "1.0" else "std"
+    _STATE["gen"] = gen
+    front = []
+    if case.get("front") and case["ver"] == "1.0":
+        # a context message is not a chat message: in passthrough chat mode the request is the prompt, so only the system one
+        front = [FRONT_SYSTEM] if gen in PT_MODES else [FRONT_CONTEXT, FRONT_SYSTEM]
     for t in case["turns"]:
         _STATE["script"] = t
         _STATE["rec"] = rec = []
         o = {"steps": rec, "reply": None, "raised": None}
         try:
             with contextlib.redirect_stdout(io.StringIO()):
-                if case["ver"] == "1.0" and state is None:
-                    res = await rails.generate_async(messages=messages + [{"role": "user", "content": t["user"]}])
+                if gen == "ptp":
+                    res = await rails.generate_async(prompt=t["user"])
                     rep = _canon_reply(res)
+                elif case["ver"] == "1.0" and state is None:
+                    if case.get("carry") == "fresh":
+                        # a stateless deployment (new worker / restarted server): no cached events, the history is
+                        # rebuilt from the plain messages on every request
+                        rails.events_history_cache.clear()
+                    # the usual client: append the user message to its own list and pass that list (the passthrough
+                    # branch overwrites the last entry in place with the rewritten text - the client's copy follows)
                     messages.append({"role": "user", "content": t["user"]})
-                    # the client keeps whatever `generate` returned in its history (as tests/utils.py::TestChat
-                    # does), also a {"role": "exception"} reply: the events-history cache is keyed by it
-                    messages.append(dict(res) if isinstance(res, dict) else {"role": "assistant", "content": rep["content"]})
+                    try:
+                        res = await rails.generate_async(messages=front + messages)
+                    except BaseException:
+                        messages.pop()
+                        raise
+                    rep = _canon_reply(res)
+                    if gen in PT_MODES and rep["role"] == "exception":
+                        # passthrough chat mode: the request IS the prompt, an {"role": "exception"} entry cannot be sent to
+                        # the LLM ("Unknown message type") - the client discards the failed exchange
+                        messages.pop()
+                    else:
+                        # the client keeps whatever `generate` returned in its history (as tests/utils.py::TestChat
+                        # does), also a {"role": "exception"} reply: the events-history cache is keyed by it
+                        messages.append(dict(res) if isinstance(res, dict) else {"role": "assistant", "content": rep["content"]})
                 else:
-                    res = await rails.generate_async(messages=[{"role": "user", "content": t["user"]}], state=state)
+                    res = await rails.generate_async(messages=front + [{"role": "user", "content": t["user"]}], state=state)
                     rep = _canon_reply(res)
                     state = res.state
             o["reply"] = rep
